@@ -7,6 +7,7 @@
     subset <name> <type hex> <key>     → ok | keyerror        hostkeys[name][type] = key
     setitem <name> <type hex>=<key>,…  → ok                   hostkeys[name] = {type: key, …}
     lookup <name>                      → none | <type hex>=<blob hex>;…      (one item per matching entry, in order)
+    items <name>                       → none | <type hex>=<blob hex>;…      (SubDict.items(): effective key per pair)
     check <name> <key>                 → 1 | 0
     keys                               → <name>,<name>,…
     dump                               → <name>,<name>|<key>;…               (the lines `save` writes)
@@ -102,6 +103,13 @@ def step (t : Table) (line : String) : Table × String :=
     | some n =>
       let es := lookup prims t n
       (t, if es.isEmpty then "none" else ";".intercalate (es.map fun e => hexOfStr e.key.type ++ "=" ++ toHexTok e.key.blob))
+    | none => (t, "bad-op")
+  | ["items", n] =>
+    match parseName n with
+    | some n =>
+      let es := lookup prims t n
+      (t, if es.isEmpty then "none" else ";".intercalate ((subItems es).map fun (ty, k) =>
+        hexOfStr ty ++ "=" ++ (match k with | some k => toHexTok k.blob | none => "?")))
     | none => (t, "bad-op")
   | ["check", n, k] =>
     match parseName n, parseKey k with
